@@ -227,6 +227,18 @@ def tuple_text_to_text(ctx, idx, rule, consequence=""):
 
     def _both_sides_text(t_):
         """all(isinstance(k, T) and isinstance(v, T) for k, v in value.items())"""
+        if isinstance(t_, ast.Call) and K.src(t_.func) == "all" and len(t_.args) == 1 and isinstance(t_.args[0], (ast.GeneratorExp, ast.ListComp)) and len(t_.args[0].generators) == 2:
+            # all(<text test of item> for pair in value.items() for item in pair): keys and values alike
+            g1_, g2_ = t_.args[0].generators
+            el2_ = t_.args[0].elt
+            if not g1_.ifs and not g2_.ifs and K.src(g1_.iter) == "%s.items()" % vname and isinstance(g1_.target, ast.Name) and isinstance(g2_.iter, ast.Name) and g2_.iter.id == g1_.target.id and isinstance(g2_.target, ast.Name):
+                it_ = g2_.target.id
+                s2_ = K.src(el2_).replace(" ", "")
+                if s2_.startswith("isinstance(%s," % it_) and ("text_type" in s2_ or "string_types" in s2_ or s2_.endswith(",str)")):
+                    return True
+                if s2_.startswith("type(%s)is" % it_) and ("text_type" in s2_ or s2_.endswith("isstr")):
+                    return True
+            return None
         if not (isinstance(t_, ast.Call) and K.src(t_.func) == "all" and len(t_.args) == 1 and isinstance(t_.args[0], (ast.GeneratorExp, ast.ListComp)) and len(t_.args[0].generators) == 1):
             return None
         g_ = t_.args[0].generators[0]
@@ -421,7 +433,29 @@ def run(ctx, idx):
                     names.add(n.targets[0].id)
                     changed = True
 
+    # a local that holds the working directory: bound to program.working_dir, or to that local made absolute / normalised
+    wd_names = set()
+    changed = True
+    while changed:
+        changed = False
+        for n in own_nodes(pp.node):
+            if isinstance(n, ast.Assign) and len(n.targets) == 1 and isinstance(n.targets[0], ast.Name):
+                v_ = n.value
+                is_wd = (isinstance(v_, ast.Attribute) and v_.attr == "working_dir") or (isinstance(v_, ast.Call) and K.src(v_.func) in ("os.path.abspath", "os.path.normpath", "os.path.realpath", "os.path.expanduser") and len(v_.args) == 1
+                                                                                           and ((isinstance(v_.args[0], ast.Name) and v_.args[0].id in wd_names) or (isinstance(v_.args[0], ast.Attribute) and v_.args[0].attr == "working_dir")))
+                if is_wd and n.targets[0].id not in wd_names:
+                    wd_names.add(n.targets[0].id)
+                    changed = True
+    for nm_ in list(wd_names):
+        # every binding of such a local is one of those forms
+        if any(isinstance(n, ast.Assign) and any(isinstance(t_, ast.Name) and t_.id == nm_ for t_ in n.targets) and not (
+                (isinstance(n.value, ast.Attribute) and n.value.attr == "working_dir") or (isinstance(n.value, ast.Call) and K.src(n.value.func) in ("os.path.abspath", "os.path.normpath", "os.path.realpath", "os.path.expanduser")))
+               for n in own_nodes(pp.node)):
+            wd_names.discard(nm_)
+
     def xsrc(e):
+        if isinstance(e, ast.Name) and e.id in wd_names:
+            return "program.working_dir"
         return K.src(K.expand(pp, e)) if not (isinstance(e, ast.Name) and e.id in names) else K.src(e)
 
     for j in joins:
